@@ -107,15 +107,18 @@ fn body(p: &P) -> Result<(), String> {
     let (server, name) = IpcOneShotServer::<Msg>::new().map_err(|e| format!("server new: {}", e))?;
     let pp = p.clone();
     let client = std::thread::spawn(move || -> Result<Vec<IpcReceiver<u32>>, String> {
+        e1::inproc_point();
         let tx = IpcSender::<Msg>::connect(name).map_err(|e| format!("connect failed: {}", e))?;
         let mut keep = Vec::new();
         for (i, sz) in pp.msgs.iter().enumerate() {
             let m = mk(i, *sz, pp.attach_at == Some(i), &mut keep);
+            e1::inproc_point();
             tx.send(m).map_err(|e| format!("client send #{} failed: {}", i, e))?;
         }
         drop(tx);
         Ok(keep)
     });
+    e1::inproc_point();
     let (rx, first) = server.accept().map_err(|e| format!("accept failed: {}", e))?;
     after_accept_clean(&root, 0)?;
     let mut got_sender = check_msg(0, first, p.attach_at == Some(0))?;
@@ -153,6 +156,7 @@ pub fn scenarios(tier: Tier) -> Vec<Scenario> {
             sched: true,
             fake_sndbuf: if p.real_small_buffer { None } else { Some(4608) },
             real_sndbuf: if p.real_small_buffer { Some(4608) } else { None },
+            yield_alts: cfg!(feature = "inproc"),
             ..Default::default()
         };
         v.push(Scenario::new(name, cfg, bound, move || body(&p)));
@@ -365,11 +369,18 @@ fn e2_cases(tier: Tier) -> Vec<Case> {
     v
 }
 
-pub fn run(tier: Tier, _part: bool) -> i32 {
-    let mut rep = Report::new("C08", tier, "model_checking");
+pub fn run(tier: Tier, part_only: bool) -> i32 {
+    super::run_with_inproc("C08", tier, part_only, "model_checking", &run_all)
+}
+
+fn run_all(rep: &mut Report, tier: Tier) {
     let scs = scenarios(tier);
-    let tot = e1::run_scenarios(&mut rep, &scs, &e1::strict_judge, if tier.is_quick() { 30.0 } else { 2500.0 });
-    let cs = e2_cases(tier);
+    let tot = e1::run_scenarios(rep, &scs, &e1::strict_judge, if tier.is_quick() { 30.0 } else { 2500.0 });
+    let mut cs = e2_cases(tier);
+    if cfg!(feature = "inproc") {
+        // the in-process rendezvous is a registry inside one process: no forked, spawned or exec'ed peers
+        cs.retain(|c| matches!(c, Case::ManyServers { .. } | Case::DroppedUnused { .. }));
+    }
     let mut n = 0u64;
     let mut fails = Vec::new();
     let cfg = Cfg { sched: true, fake_sndbuf: Some(4608), ..Default::default() };
@@ -391,10 +402,10 @@ pub fn run(tier: Tier, _part: bool) -> i32 {
     rep.set("deviation_bound", json!(tot.max_bound));
     rep.set("rule", json!("E1: one evaluation = one schedule (<= bound deviations) of a server task (new, accept) and a client task (connect, 1-3 messages of mixed size, optionally one with sender+region, drop): accept-first, connect-first, sends before accept and client finished before accept all arise as schedules; with a fake or a kernel-enforced 4608-byte send buffer (the client then blocks until the server drains). E2: forked client and separately exec'ed client that exit before accept with 1..5 (20) messages queued, 1..50 (200) servers alive at once (names distinct; accepted or dropped), server dropped unused with and without a connected client; after accept / drop the temp root must be empty and no listening descriptor open"));
     rep.assume("the spawned (exec'ed) client is the harness binary itself in a client mode");
-    rep.finish()
 }
 
 pub fn replay(tier: Tier, v: &Value) -> i32 {
+    let v = if v.get("variant").is_some() { &v["case"] } else { v };
     if v["engine"] == "E2" {
         let Ok(c) = serde_json::from_value::<Case>(v["case"].clone()) else { return 2 };
         let cfg = Cfg { sched: true, fake_sndbuf: Some(4608), ..Default::default() };
